@@ -334,6 +334,9 @@ func checkDoc(dc DocCase, ctx *vcommon.Ctx) *vcommon.Failure {
 	if info.depth >= 2 {
 		c.Class("depth>=2")
 	}
+	if info.depth >= 64 {
+		c.Class("depth>=64 (encoder guard depth)")
+	}
 	p := planNumbers(n, dc.SN, dc.EI)
 	for _, cl := range []struct {
 		name string
